@@ -142,6 +142,15 @@ CHECKS = {
              "geometries in the bounds; extract_energy_sum/profile run on a symbolic energy dictionary; memory energies are non-negative.",
         note="QTools.pe()/energy_estimate end to end and extract_model_operations cannot run under the pinned Keras 3 and are outside the claim.",
         ref="DESIGN.md section 3 C19"),
+    "C08": dict(
+        level="model_checking", engine="tfg2smt",
+        technique="bounded SMT (QF_BVFP) over the graph traced under a learning-phase stub with the uniform draw as a free symbolic value; inference side by graph equivalence",
+        text="Training phase: for all (x, r) the output is the floor- or ceil-code of the clipped surrogate, codes are unchanged, and the upper code "
+             "is chosen exactly when r <= frac (threshold form of unbiasedness).  Inference phase: the graph of every stochastic configuration / "
+             "stochastic_* class is proved equal to its deterministic counterpart.",
+        note="K.learning_phase does not exist under the pinned Keras 3 and is stubbed; power-of-two / binary / ternary training-phase distributions are "
+             "not covered.",
+        ref="DESIGN.md section 3 C08"),
 }
 
 NOT_YET = "check not built yet in this revision (see DESIGN.md section 7 build order)"
